@@ -18,6 +18,7 @@ kind stream, every op result (as file indices of the atoms handed out) and the G
 import os
 
 from .. import sysgen as G
+from .. import common
 
 RULE = ("files: 1..400 residues of size 1..12, with/without velocities, residue numbering sequential from a "
         "random start (wrapping at 99999), layouts: blocks / alternating / iid kinds / same name different sizes / "
@@ -211,7 +212,8 @@ def evaluate(ctx, case):
     import numpy as np
 
     _counter[0] += 1
-    path = os.path.join(ctx.scratch, f"c12-{_counter[0]}.gro")
+    path = os.path.join(ctx.scratch, f"c12-{_counter[0] % 3}.gro")   # path strings reused on purpose
+    common.decoy(path, "gro")
     residues = case["residues"]
     ops = _fix_iter_ops(case["ops"])
     G.write_gro(path, case["title"], residues, case["coordseed"], case["vel"])
